@@ -228,6 +228,67 @@ def gen_C19(chk):
         add_shell(chk, "CONV", [gen.hx(net)], tag="conv", meta={"net": net})
 
 
+def judge_model_tie(chk):
+    """LOADF / LABEL / CONVM: the implementation and the extracted model must answer alike"""
+    for cid, case in list(chk.cases.items()):
+        if case["kind"] not in ("LOADF", "LABEL", "CONVM"):
+            continue
+        r = chk.results.get(cid, {})
+        impl, model = r.get("impl"), r.get("model")
+        if impl is None:
+            chk.record(cid, ("tie", "no answer from the implementation harness"))
+            continue
+        if impl.get("status") == "SKIP":
+            chk.stats["skipped:" + impl.get("payload", "")[:30]] += 1
+            continue
+        if impl.get("status") == "PANIC":
+            chk.record(cid, ("violation", "panic: " + impl.get("payload", "")))
+            continue
+        chk.nontrivial.add(hash((case["kind"], tuple(case["fields"]))))
+        if case["kind"] == "LOADF":
+            # independent reading of the file
+            text = gen.unhx(case["fields"][0])
+            want = []
+            for line in text.split("\n"):
+                if line.endswith("\r"):
+                    line = line[:-1]
+                t = line.strip(" \t\n\r\x0b\x0c\x85\xa0\u1680\u2000\u2001\u2002\u2003\u2004\u2005\u2006\u2007\u2008\u2009\u200a\u2028\u2029\u202f\u205f\u3000")
+                if t and not t.startswith("#"):
+                    want.append(t)
+            got = [gen.unhx(x) for x in impl.get("payload", "").split(",")] if impl.get("payload") else []
+            if impl.get("status") == "OK" and got != want:
+                chk.record(cid, ("violation", "load_formulae returned %r, the file lists %r" % (got, want)))
+                continue
+        if model is None or run.norm(model) != run.norm(impl):
+            chk.record(cid, ("tie", "implementation %s / model %s" % (run.norm(impl), run.norm(model) if model else None)))
+
+
+def gen_shell_tie_C17(chk):
+    rng = chk.rng
+    pieces = ["a & b", "EF a", "# c", "", "  ", "\t", "!{x}: AX {x}", "#", " # x", "a\r", "\u00a0a\u2003", "x # y", "\x0b", "é & a"]
+    for j in range(300 if thorough(chk) else 60):
+        lines = [rng.choice(pieces) for _ in range(rng.randint(0, 6))]
+        lines = [rng.choice(["", " ", "\t"]) + l + rng.choice(["", " ", "\r", " \r"]) for l in lines]
+        text = rng.choice(["\n", "\r\n"]).join(lines) + rng.choice(["", "\n", "\r\n", "\r"])
+        add_shell(chk, "LOADF", [gen.hx(text)], tag="loadf")
+
+
+def gen_shell_tie_C16(chk):
+    rng = chk.rng
+    labels = ["a", "formula-0", "x.y", ".x", "a.", "a.bdd", "UP", "a/b", "a/", "/", "..", "a/..", ".", "é", "a b", "x..bdd", "-"]
+    for l in labels:
+        add_shell(chk, "LABEL", [gen.hx(l)], tag="label")
+    for j in range(100 if thorough(chk) else 20):
+        l = "".join(rng.choice("ab./_-B1") for _ in range(rng.randint(1, 6)))
+        add_shell(chk, "LABEL", [gen.hx(l)], tag="label")
+
+
+def gen_shell_tie_C19(chk):
+    for cid, case in list(chk.cases.items()):
+        if case["kind"] == "CONV":
+            add_shell(chk, "CONVM", list(case["fields"]), tag="convm", meta=case.get("meta"))
+
+
 def runner(gens, judge):
     def run_(chk):
         for g in gens:
@@ -238,8 +299,8 @@ def runner(gens, judge):
 
 
 REGISTRY = {
-    "C16": runner([gen_C16], judge_shell),
-    "C17": runner([gen_C17], judge_shell),
-    "C19": runner([gen_C19], judge_shell),
+    "C16": runner([gen_C16, gen_shell_tie_C16], lambda c: (judge_shell(c), judge_model_tie(c))),
+    "C17": runner([gen_C17, gen_shell_tie_C17], lambda c: (judge_shell(c), judge_model_tie(c))),
+    "C19": runner([gen_C19, gen_shell_tie_C19], lambda c: (judge_shell(c), judge_model_tie(c))),
     "C20": runner([gen_C20], judge_C20),
 }
